@@ -593,6 +593,23 @@ func (fv *FV) evalAddrOf(st *State, x *ast.UnaryExpr) Term {
 		if c, ok := st.vars[obj]; ok && c.Sort == sInt && strings.HasPrefix(c.S, "cell") {
 			return Term{S: c.S, Sort: sInt, T: fv.typeOf(x)}
 		}
+		if c, ok := st.vars[obj]; ok && strings.HasPrefix(c.Sort, "S_") && fv.inReturn > 0 {
+			// `return &local` with a struct-valued local: the variable escapes when the function ends, so nothing
+			// can write through it afterwards: a fresh object holding the variable's current value
+			named, ut := structOf(obj.Type())
+			if named != nil && ut != nil {
+				r := fv.newRef(st, "new"+named.Obj().Name())
+				for j := 0; j < ut.NumFields(); j++ {
+					if isUserByRef(ut.Field(j).Type()) || isOpaqueStruct(ut.Field(j).Type()) {
+						fv.fail(x.Pos(), "address of a local struct with embedded struct fields")
+					}
+					key, _ := fv.fieldComp(named, ut.Field(j))
+					fv.heapSetNoFrame(st, key, sto(fv.heapGet(st, key), r, fmt.Sprintf("(%s_%s %s)", c.Sort, symName(ut.Field(j).Name()), c.S)))
+				}
+				fv.initGhostFields(st, named, r)
+				return Term{S: r, Sort: sInt, T: fv.typeOf(x)}
+			}
+		}
 	}
 	fv.fail(x.Pos(), "unsupported address-of %s", fv.src(x))
 	return Term{}
